@@ -76,11 +76,17 @@ def diff_and_patch(vendor, old, new, rb, acl=None, filter_acl=None, add_comments
     return _diff_and_patch(Dev(hw_for(vendor)), old, new, acl, filter_acl, add_comments, rb=rb)
 
 
+def diff_and_patch_hw(hw, old, new, do_commit=True):
+    """with the shipped rulebook of that hardware"""
+    from annet.api import _diff_and_patch
+    return _diff_and_patch(Dev(hw), old, new, None, None, False, do_commit=do_commit)
+
+
 def cmd_paths(vendor, patch_tree):
     return list(formatter(vendor).cmd_paths(patch_tree).keys())
 
 
-def production_acl_text(named_rules, indents=None):
+def production_acl_text(named_rules, indents=None, comments=0):
     """the combined ACL text exactly as production builds it: every generator's raw ACL literal (with whatever base indentation
     its source has) goes through RunGeneratorResult.acl_text() (%generator_names tagging)"""
     from collections import OrderedDict as odict
@@ -91,7 +97,17 @@ def production_acl_text(named_rules, indents=None):
     res = RunGeneratorResult()
     for i, (name, rules) in enumerate(named_rules):
         pad = " " * (indents[i] if indents else 0)
-        raw = "\n" + "".join(pad + l + "\n" for l in acl_lines(rules)) + pad
+        lines = [pad + l for l in acl_lines(rules)]
+        if comments:
+            # hand-written ACL literals carry comments: an indented '# ...' line is skipped and keeps the nesting
+            out = []
+            for j, l in enumerate(lines):
+                ind = len(l) - len(l.lstrip(" "))
+                if ind and (j * 7 + comments + i) % 3 == 0:
+                    out.append(" " * ind + "# " + "note %d" % j)
+                out.append(l)
+            lines = out
+        raw = "\n" + "".join(l + "\n" for l in lines) + pad
         res.add_partial(GeneratorPartialResult(name=name, tags=[], acl=raw, acl_rules=None, acl_safe="", acl_safe_rules=None, output="",
                                                config=odict(), safe_config=odict(), perf=None))
     return res.acl_text()
